@@ -249,12 +249,21 @@ def rule_deletes_spare_comments(ctx):
     def safe(f, site, arg, depth=0):
         """site: node at which chunk expression node `arg` must not be a comment"""
         x = expr_str(f, arg)
-        for cn, pol in f.guard_conds(f.nblock[site["i"]]):
-            if cn is not None and _not_comment_fact(expr_str(f, cn), pol, x):
-                return True
         a = f.nodes.get(arg)
         while a is not None and a["k"] == "cast":
             a = f.nodes.get(a["a"][0])
+        is_var = a is not None and a["k"] == "ref" and a.get("d") in ("lv", "pv")
+        here = set(id(q[1]) for q in rd_of(f).at(site["i"], var_id(a))) if is_var else None
+        for cn, pol in f.guard_conds(f.nblock[site["i"]]):
+            if cn is not None and _not_comment_fact(expr_str(f, cn), pol, x):
+                # the fact must be about the value the variable has at the site (not about one it held before a re-assignment)
+                anchor = cn
+                if f.nblock.get(anchor) is None:            # a short-circuit operator is a terminator, not a block element
+                    sub = [y["i"] for y in walk(f, cn) if f.nblock.get(y["i"]) is not None]
+                    anchor = sub[-1] if sub else None
+                if is_var and anchor is not None and set(id(q[1]) for q in rd_of(f).at(anchor, var_id(a))) != here:
+                    continue
+                return True
         if a is None:
             return False
         if a["k"] == "call":
@@ -307,6 +316,14 @@ def rule_deletes_spare_comments(ctx):
             x = expr_str(f, c["a"][0])
             r.check(safe(f, c, c["a"][0]), "%s/Delete(%s)" % (f.qn.split("::")[-1], x), db.loc(f, c),
                     "nothing says that `%s` is not a comment when it is deleted" % x)
+    # checked precondition of the exception for remove_duplicate_include/Delete(temp): the list of known includes holds at
+    # most one entry, so the loop over it cannot move `pc` before a match
+    g = db.fn("remove_duplicate_include")
+    pushes = [x for x in g.all_nodes() if x["k"] == "call" and (x.get("c") or "").endswith("::push_back") and expr_str(g, x.get("o")) == "includes"]
+    r.check(bool(pushes) and all(("includes.empty()", True) in [(expr_str(g, cn), pol) for cn, pol in g.guard_conds(g.nblock[x["i"]]) if cn is not None] for x in pushes),
+            "remove_duplicate_include/includes-holds-one-entry", db.loc(g, pushes[0] if pushes else g.l0),
+            "`includes` can grow beyond one entry: the loop over it then moves `pc` to a newline before a later match, and Delete(temp) removes that newline "
+            "instead of the `include` token")
     r.require(n >= 45, "only %d Chunk::Delete call sites found" % n)
     r.floor(45)
 
